@@ -108,8 +108,8 @@ func H_c12_admission() {
 	uriMode, cfgURI, reqURI := 2, "/a", "/a"
 	if focus == 0 {
 		uriMode = nondet_choice("cfg-uris", 5)
-		cfgURI = "/" + verifSymText("cfg-uri", 1)
-		reqURI = "/" + verifSymText("req-uri", 1)
+		cfgURI = "/" + verifSymText("cfg-uri", verif_bound("uri-text-len", 1, 2))
+		reqURI = "/" + verifSymText("req-uri", verif_bound("uri-text-len", 1, 2))
 	} else if nondet_bool("uri-mismatch") {
 		reqURI = "/b"
 	}
@@ -130,11 +130,11 @@ func H_c12_admission() {
 	if focus == 1 {
 		h.Config.UserAgent = ""
 		if nondet_bool("cfg-ua-set") {
-			h.Config.UserAgent = "UA" + verifSymText("cfg-ua", 1)
+			h.Config.UserAgent = "UA" + verifSymText("cfg-ua", verif_bound("ua-text-len", 1, 2))
 		}
 		reqUA = ""
 		if nondet_bool("req-ua-present") {
-			reqUA = "UA" + verifSymText("req-ua", 1)
+			reqUA = "UA" + verifSymText("req-ua", verif_bound("ua-text-len", 1, 2))
 		}
 	} else if nondet_bool("ua-mismatch") {
 		reqUA = "UAy"
